@@ -106,6 +106,16 @@ def _mc(chk, invariants, name, **over):
         framework.CONST_DEFAULTS.update(saved)
 
 
+def three_episodes(b, rng):
+    """One dispatcher, three episodes: two abandoned prefixes of the behaviour's dispatch sequence, each followed by
+    a reset, then the whole sequence (what a training loop does; defects that need two resets live here)."""
+    acts = [a for a in b["hist"] if a["a"] == "D"]
+    hist = []
+    for _ in range(2):
+        hist += acts[: rng.randint(1, max(1, len(acts)))] + [{"a": "Reset"}]
+    return dict(b, hist=hist + acts)
+
+
 def c11():
     chk = Check("C11", "model_checking")
     _mc(chk, ["Inv_C11_IsReady", "Inv_C11_IsScheduled", "Inv_C11_Position", "Inv_C11_Remaining",
@@ -120,7 +130,10 @@ def c11():
     n = _traces(chk, behs[: len(behs) // 2], rng, "tlc-simulated+all-feature-observers", full=True)
     n += _traces(chk, behs[len(behs) // 2:], rng, "tlc-simulated+random-observer-subsets", start=n + 1)
     rb = [random_behaviour(rng, resets=0.02, max_jobs=4, max_ops=4, max_m=3) for _ in range(_n(chk, 100, 1000))]
-    _traces(chk, rb, rng, "random-large+random-observer-subsets", start=n + 1)
+    n += _traces(chk, rb, rng, "random-large+random-observer-subsets", start=n + 1)
+    eps = [three_episodes(b, rng) for b in (behs[: _n(chk, 60, 300)] + rb[: _n(chk, 40, 200)])]
+    n += _traces(chk, eps[::2], rng, "three-episodes+all-feature-observers", start=n + 1, full=True)
+    _traces(chk, eps[1::2], rng, "three-episodes+random-observer-subsets", start=n + 1)
     return chk.finish(
         "TLC: implementation-shaped observer records vs the definitional FeatTrue for every entity with work "
         "left, in every reachable state of the family x filters (one invariant per observer class and "
@@ -142,6 +155,7 @@ def c12():
     n = _traces(chk, behs, rng, "tlc-simulated-resets+random-creation-orders")
     rb = [random_behaviour(rng, resets=0.12, max_jobs=4, max_ops=4, max_m=3) for _ in range(_n(chk, 120, 1200))]
     n += _traces(chk, rb, rng, "random-large-resets", start=n + 1)
+    n += _traces(chk, [three_episodes(b, rng) for b in rb[: _n(chk, 60, 300)]], rng, "three-episodes", start=n + 1)
     # observers attached in the middle of a history, then a reset
     late = []
     for i, b in enumerate((behs + rb)[: _n(chk, 150, 1200)]):
